@@ -23,6 +23,88 @@ def typenum_value(s):
     return v
 
 
+RFC_BLOCK_TYPES = {  # RFC 9580 §6.2
+    'PublicKey': 'PGP PUBLIC KEY BLOCK', 'PrivateKey': 'PGP PRIVATE KEY BLOCK', 'Message': 'PGP MESSAGE',
+    'Signature': 'PGP SIGNATURE', 'CleartextMessage': 'PGP SIGNED MESSAGE', 'File': 'PGP ARMORED FILE',
+}
+
+
+def _const_str(b, o, defs):
+    from rules.common import resolve_value
+    for _ in range(4):
+        k, v = resolve_value(b, o, defs)
+        if k == 'constx' and 's' in v:
+            return v['s'].strip('"')
+        if k == 'rv' and v['k'] == 'ref' and v['p']['pr'] in (['*'], []):
+            o = dict(l=v['p']['l'], pr=[], mv=0)
+            continue
+        return None
+    return None
+
+
+def block_type_tables(ctx, P):
+    """R-table: the block-type word written between `-----BEGIN ` and `-----` (Display for BlockType) and the word the header
+    parser maps back to the same variant are the same string, and for the OpenPGP types equal RFC 9580 §6.2."""
+    from rules.common import single_defs, resolve_value
+    rb = ctx.body('armor::reader::armor_header_type')
+    wb = ctx.body('<armor::reader::BlockType as std::fmt::Display>::fmt')
+    if rb is None or wb is None:
+        return
+    defs = single_defs(rb)
+    rt = {}
+    for i, t in rb.calls(r'nom::combinator::value$'):
+        vs = sorted(x.split('::')[-1] for x in rb.operand_origins(t['args'][0]) if x.startswith('agg:armor::reader::BlockType::'))
+        sub = sorted(x.split('::')[-1] for x in rb.operand_origins(t['args'][0]) if x.startswith('agg:armor::reader::PKCS1Type::'))
+        k, v = resolve_value(rb, t['args'][1], defs)
+        st = _const_str(rb, v['args'][0], defs) if k == 'call' and v['f'].get('fn', '').endswith('::tag') else None
+        if len(vs) == 1 and not sub:
+            rt.setdefault(vs[0], set()).add(st)
+    defs = single_defs(wb)
+    dom = wb.dominators()
+    wt = {}
+    for i, t in wb.calls(r'Formatter::<.*>::write_str$'):
+        arms = [vs for adt, vs in arm_context(wb, i, dom) if adt == 'BlockType']
+        st = _const_str(wb, t['args'][1], defs)
+        for a in (min(arms, key=len) if arms else ['?']):
+            wt.setdefault(a, set()).add(st)
+    table = {v: dict(parser=sorted(map(str, rt.get(v, []))), writer=sorted(map(str, wt.get(v, [])))) for v in sorted(set(rt) | set(wt))}
+    bad = {v: t for v, t in table.items() if v in rt and v in wt and t['parser'] != t['writer']}
+    ctx.check(P + ':S10-5:block-type-strings-agree', 'R-table', 'for every block type with a literal word, the armor writer emits the word the header parser maps back to the same type',
+              not bad and len([v for v in table if v in rt and v in wt]) >= 6, function=wb.path, table=table, missing=bad or None)
+    rfc_bad = {v: table.get(v) for v, w in RFC_BLOCK_TYPES.items() if table.get(v, {}).get('writer') != [w] or table.get(v, {}).get('parser') != [w]}
+    ctx.check(P + ':S10-5:block-type-strings-rfc', 'R-table', 'the OpenPGP block-type words equal RFC 9580 §6.2', not rfc_bad, function=rb.path, missing=rfc_bad or None)
+    # the framing around the word: constants of the writer in order, and the parser's tags
+    def consts(b):
+        out = []
+        def walk(x):
+            if isinstance(x, dict):
+                if isinstance(x.get('k'), dict) and 's' in x['k'] and x['k']['s'].startswith('b"'):
+                    out.append(x['k']['s'][2:-1])
+                for v in x.values():
+                    walk(v)
+            elif isinstance(x, list):
+                for v in x:
+                    walk(v)
+        walk(b.blocks)
+        return out
+    want = {'armor::writer::write_header': ['-----BEGIN ', '-----\\n', ': '],
+            'armor::writer::write_footer': ['=', '-----END ', '-----\\n'],
+            'armor::reader::armor_header_sep': ['-----'], 'armor::reader::armor_header_line': ['BEGIN '],
+            'armor::reader::armor_footer_line': ['---END ']}
+    for path, w in want.items():
+        b = ctx.body(path)
+        if b is None:
+            continue
+        got = ''.join(consts(b))
+        pos, ok = 0, True
+        for x in w:   # in this order, anywhere in the concatenation of the function's byte-string literals (robust to re-chunking of writes)
+            k = got.find(x, pos)
+            ok &= k >= 0
+            pos = k + len(x) if k >= 0 else pos
+        ctx.check(P + ':S10-5:framing:' + path.split('::')[-1], 'R-table', 'the byte-string literals of %s contain, in order, %s (RFC 9580 §6.2 framing)' % (path.split('::')[-1], w),
+                  ok, function=path, table=got)
+
+
 def run(ctx):
     P = 'C10'
     stream.r_lost(ctx, P, 'S10-1')
@@ -78,3 +160,5 @@ def run(ctx):
         shifts = sorted(o['k']['v'] for i, k, s in b.stmts(lambda s: s['r']['k'] == 'bin' and s['r']['op'] in ('Shr', 'ShrUnchecked')) for o in s['r']['o'][1:] if 'k' in o and 'v' in o['k'])
         ctx.check(P + ':S10-3:crc-shifts', 'R-table', 'the three checksum octets are crc>>16, crc>>8, crc', shifts == [8, 16], function=b.path, table=shifts)
     stream.r_pair(ctx, P)
+    stream.wrapper_finishers(ctx, P)
+    block_type_tables(ctx, P)
